@@ -1,24 +1,25 @@
 #!/bin/bash
-# Apply each mutant of mutants/INDEX.tsv (or the named ones) to /repo, run the quick check of its
-# property (all four checks for negative controls), restore /repo. Never leaves /repo modified.
+# Apply each mutant of mutants/INDEX.tsv (or the named ones) to the tree named by MUT_REPO (default /repo; a scratch git
+# worktree of it leaves /repo free), run the quick check of its property (all four checks for negative controls), restore the tree.
 cd "$(dirname "$0")/.." || exit 2
 out=${MUT_OUT:-build/mutants.tsv}
 mkdir -p build
 sel="$*"
-git -C /repo diff --quiet || { echo "/repo has local modifications, refusing"; exit 2; }
-trap 'git -C /repo checkout -- . 2>/dev/null' EXIT
+R=${MUT_REPO:-/repo}
+git -C $R diff --quiet || { echo "$R has local modifications, refusing"; exit 2; }
+trap 'git -C $R checkout -- . 2>/dev/null' EXIT
 while IFS=$'\t' read -r name prop path; do
   [ -z "$name" ] && continue
   if [ -n "$sel" ] && ! echo " $sel " | grep -q " $name "; then continue; fi
-  git -C /repo apply "$PWD/mutants/$name.diff" || { echo -e "$name\t$prop\tAPPLY-FAILED" | tee -a "$out"; continue; }
+  git -C $R apply "$PWD/mutants/$name.diff" || { echo -e "$name\t$prop\tAPPLY-FAILED" | tee -a "$out"; continue; }
   props="$prop"; [ "$prop" = NONE ] && props="C05 C16 C18 C19"
   for p in $props; do
     t0=$(date +%s)
     log="build/mut-$name-$p.log"
-    ./check "$p" --tier quick >"$log" 2>&1; rc=$?
+    REPO=$R ./check "$p" --tier quick >"$log" 2>&1; rc=$?
     sig=$(grep -m1 '^violation: signature=' "$log" | sed 's/^violation: signature=\([^ ]*\).*/\1/')
     [ -z "$sig" ] && sig=$(grep -m1 'HARNESS\|BUILD-FAILED' "$log" | cut -c1-80)
     echo -e "$name\t$prop\t$p\texit=$rc\t$(( $(date +%s) - t0 ))s\t$sig" | tee -a "$out"
   done
-  git -C /repo checkout -- .
+  git -C $R checkout -- .
 done < mutants/INDEX.tsv
